@@ -35,6 +35,26 @@ def bad_strip_calls(fn: ast.FunctionDef, fold: Any, mod: Any) -> list[tuple[ast.
 def run(chk: Check, ctx: Any) -> None:
     repo = ctx.repo
     fold = ctx.fold
+    ctx.require_generated_tables_in_sync = False  # reported below as C16-R5 instead of failing the load
+    chk.rule("C16-R5", "the generated lexers and parsers are the tables of the grammar files: every lexer and parser rule of the serialized ATNs accepts the same "
+                       "language as the rule written in the .g4 files (finite automata compared for equality, fragments inlined), same rule order, token types, "
+                       "non-greedy loops and lexer commands; the .interp files carry the same tables")
+    from ..engine.atn import agreement
+    from ..engine.g4 import load_grammar
+    n_cmp = 0
+    for gname in ("ExplorerScript", "SsbScript"):
+        gg = load_grammar(repo, gname)
+        problems, facts = agreement(repo, gg, gname)
+        n_cmp += facts["rules_compared"]
+        where = (f"explorerscript/antlr/{gname}Parser.py", 0)
+        if problems:
+            for pr in problems[:6]:
+                # not a verdict about the property: the rules below read the .g4 files, which are then not what runs
+                chk.unknown("C16-R5", f"{gname}:{pr[:80]}", where, f"{gname}: generated tables and grammar files disagree: {pr}")
+        else:
+            chk.hold("C16-R5", f"{gname}:tables", where, f"{facts['rules_compared']} rules: same language in the generated tables ({facts['lexer_states']} + "
+                                                        f"{facts['parser_states']} ATN states) and in the grammar files", facts=facts)
+    chk.floor("C16-R5", "lexer and parser rules compared between generated tables and grammar files", n_cmp, 230)
     chk.explanation = (
         "Decides for all programs: (R1) grammar facts — SKIP_ covers blanks, both comment forms and line joining, carries `-> skip` and is referenced by "
         "no parser rule; every keyword token precedes IDENTIFIER in the effective lexer order; label accepts both sigils, routine targets both "
